@@ -1,4 +1,5 @@
 import Votca.Model.C17
+import Votca.Lemmas.C17
 import Mathlib.Tactic.Ring
 import Mathlib.Tactic.Linarith
 /-! # C17 — property theorems: the checkpoint store returns exactly what was stored
@@ -83,6 +84,38 @@ theorem hyperslab_roundtrip (rows cols ld : Nat) (mem : Nat → Rat) (r c : Nat)
   have h2 : (r * cols + c) % cols = c := by
     rw [Nat.add_comm, Nat.add_mul_mod_self_right, Nat.mod_eq_of_lt hc]
   rw [h1, h2]
+
+/-! ## whole histories: the store refines a plain map -/
+
+/-- **C17 (full strength, every history).**  For every operation sequence — writes of any kind and shape under any group path
+    through read-write or read-only handles, reads of present, missing and differently typed names, in any order — the outputs
+    of the store (association list with replace-on-write, as the HDF5 file is used) are those of a plain partial map
+    `(path, name) ↦ value`: one refinement theorem from which the step-level statements above follow for every reachable state. -/
+theorem run_refines (s : Store) (ops : List Op) : run s ops = Spec.run (absS s) ops := run_refines_lem ops s
+
+/-- after any history a name holds the LAST value successfully written under it (whatever was there before, whatever kind or
+    shape the earlier values had, however many other names were written in between), and what the file held at the start if the
+    history never wrote it; writes attempted through a read-only handle leave no trace -/
+theorem name_holds_last_write (s : Store) (ops : List Op) (k : Key) :
+    absS (final s ops) k = visible s ops k ∧
+    (∀ o, lastWrite k ops = some o → visible s ops k = some o) ∧ (lastWrite k ops = none → visible s ops k = absS s k) :=
+  ⟨final_abs ops s k, fun o h => by simp [visible, h], fun h => by simp [visible, h]⟩
+
+/-- hence a read after any history: the value of the last write when its kind is the one asked for, an error otherwise —
+    in particular an error for a name no write of the history (and nothing before it) ever stored -/
+theorem read_after_history (s : Store) (ops : List Op) (k : Key) (kind : String) :
+    (final s ops).read k kind = ofKind kind (visible s ops k) := by
+  rw [read_eq_abs, final_abs]
+
+theorem never_written_is_error (ops : List Op) (k : Key) (kind : String) (h : lastWrite k ops = none) :
+    (final [] ops).read k kind = none := by
+  rw [read_after_history]; simp [visible, h, absS, ofKind]
+
+/-- invariant over every reachable state: the file never holds two objects under one name -/
+theorem one_object_per_name (ops : List Op) : KeysNodup (final [] ops) :=
+  final_keysNodup ops [] (by simp [KeysNodup])
+
+example : lastWrite ("/g", "a") [.write 1 ("/g", "a") (.int 3), .write 0 ("/g", "a") (.int 9), .write 1 ("/g", "b") (.int 4)] = some (.int 3) := by decide
 
 example : run [] [.write 1 ("/", "a") (.int 3), .write 1 ("/", "a") (.mat 1 2 [1, 2]), .read ("/", "a") "m", .read ("/", "b") "i", .write 0 ("/", "a") (.int 1)]
     = [.ok, .ok, .val (.mat 1 2 [1, 2]), .err, .err] := by decide
